@@ -94,7 +94,7 @@ fn plan(prop: &str) -> Plan {
             level: "exploration",
             runs_quick: 1_500_000,
             runs_thorough: 60_000_000,
-            builds_quick: &["default", "preserve_order"],
+            builds_quick: &["default", "preserve_order", "perf"],
             builds_thorough: ALL_BUILDS,
             rule: "One evaluation = one seeded scenario (type description T + value v + writer-peer choices H1-H4 + F-SER fault plan) driven through all 7 serializers behind the serializer seam and read back by the reader peer R(T) behind the deserializer seam. Scenarios are drawn by the swarm generator (sim/src/gen.rs) from run seed = mix(VERIF_SEED, property, tier, run index). A scenario is non-trivial if its type description has >= 3 nodes; distinct = distinct conversation shape (hash of the full seam event sequence of the run with payload values erased, i.e. the sequence of serializer/deserializer/visitor calls and their nesting depth), counted with a hash set. In 1/8 of the evaluations the peers are REAL derived types (workload R, sim/src/realfam.rs: seven families using flatten, untagged, internally and adjacently tagged enums, default, rename_all, skip_serializing_if, Box, toml::Table flattened, and HashMap fields whose iteration order is the environment's choice) driven through the same seams, faults and oracles.",
             real: &["toml::ser::{to_string,to_string_pretty}", "toml_edit::ser::{to_string,to_string_pretty,to_document}", "toml::Value::try_from / toml::Table::try_from (toml::value::ValueSerializer)", "toml::de::Deserializer / toml_edit::de::* / impl Deserializer for toml::Value (read-back)", "toml_edit parser + encoder", "toml_datetime Serialize/Deserialize/FromStr/Display", "serde's own impls for primitives, String, char, IgnoredAny", "toml::Value Serialize/Deserialize"],
@@ -105,7 +105,7 @@ fn plan(prop: &str) -> Plan {
             level: "exploration",
             runs_quick: 600_000,
             runs_thorough: 30_000_000,
-            builds_quick: &["default", "preserve_order"],
+            builds_quick: &["default", "preserve_order", "perf"],
             builds_thorough: ALL_BUILDS,
             rule: "One evaluation = one seeded scenario: either (A) a type description T + value v, serialized to a document by one of the five text serializers, then decoded by the reader peer R(T) through all nine decoding routes (toml::from_str, toml_edit::de::from_str/from_slice, from_document(DocumentMut/ImDocument), toml::Value::try_into, toml::Table::try_into, both single-value deserializers), plus Value/Table::try_from compared with the text route and the two value-level serializers compared with each other; or (B) a DocGen/corpus document with an inferred (sometimes mismatching) reader type through the seven document routes; in both a fraction of runs injects F-VIS (a visitor callback of the reader fails at callback k, entry or exit) and B sometimes lets the reader stop early (H8). Non-trivial = type description + document tree have >= 3 nodes; distinct = distinct conversation shape (hash of the seam event sequence of the whole run, payloads erased), counted with a hash set. In 1/8 of the evaluations the peers are REAL derived types (workload R, sim/src/realfam.rs: seven families using flatten, untagged, internally and adjacently tagged enums, default, rename_all, skip_serializing_if, Box, toml::Table flattened, and HashMap fields whose iteration order is the environment's choice) driven through the same seams, faults and oracles.",
             real: &["all nine decoding routes (toml::de, toml_edit::de::*, impl Deserializer for toml::Value / toml::Table)", "toml::Value::try_from / Table::try_from, toml::ser::ValueSerializer, toml_edit::ser::ValueSerializer", "the five text serializers (document production)", "toml_edit parser", "serde's primitive impls, toml_datetime impls, toml::Value Deserialize"],
@@ -116,7 +116,7 @@ fn plan(prop: &str) -> Plan {
             level: "exploration",
             runs_quick: 400_000,
             runs_thorough: 20_000_000,
-            builds_quick: &["default", "preserve_order"],
+            builds_quick: &["default", "preserve_order", "perf"],
             builds_thorough: ALL_BUILDS,
             rule: "One evaluation = one seeded scenario: a document (DocGen layout plan rendered with multi-byte text, BOM, CRLF, comments, odd whitespace, dotted keys, header / array-of-tables / inline layouts, four string kinds, exotic number and date-time spellings; or one of the toml-test 1.0.0 valid documents) and a reader type inferred from its tree in which the reader peer asks for a span (serde_spanned protocol) at a seeded subset of nodes - values, keys, tables, arrays, array-of-tables elements, enum payloads, options, newtypes, the root; 100%, 60%, 25% or 10% of the nodes. Every span() of the parsed ImDocument is checked (bounds, char boundaries, nesting, slice re-parses to the same key/value, equals the byte range DocGen recorded when it wrote the token); the reader decodes through the four span-bearing routes with and without the Spanned wrappers (same verdict, same value, delivered span = the tree's own span()), and through the editable-document route where no span may survive. Non-trivial = reader type + document tree have >= 3 nodes; distinct = distinct conversation shape (seam event sequence with payloads erased), counted with a hash set.",
             real: &["toml_edit parser (all span producers), ImDocument / DocumentMut / into_mut / despan", "toml_edit::de::* incl. SpannedDeserializer, KeyDeserializer; toml::de wrappers", "Value::from_str / Key::from_str (slice re-parse)", "serde's primitive impls"],
@@ -127,7 +127,7 @@ fn plan(prop: &str) -> Plan {
             level: "fault_enumeration",
             runs_quick: 60_000,
             runs_thorough: 1_500_000,
-            builds_quick: &["default", "preserve_order"],
+            builds_quick: &["default", "preserve_order", "perf"],
             builds_thorough: ALL_BUILDS,
             rule: "One evaluation = one seeded (document, reader type) pair: a DocGen / toml-test document with an inferred reader type (some deliberately mismatching, some with Spanned or toml::Value leaves), or the text obtained by serializing a generated value with its mirrored type. For each of the seven document routes the reader peer is first run fault-free to count its visitor callbacks n; then a failure is injected at ENTRY and at EXIT of EVERY callback k = 0..n-1 (F-VIS, exhaustive in the fault dimension up to 160 callbacks), one execution per position, and every distinct error obtained is rendered into a sink that fails at EVERY write_str (F-SINK). Non-trivial = reader type + document tree have >= 3 nodes; distinct = distinct conversation shape of the whole evaluation (seam event sequences of all its executions, payloads erased), counted with a hash set. In 1/8 of the evaluations the peers are REAL derived types (workload R, sim/src/realfam.rs: seven families using flatten, untagged, internally and adjacently tagged enums, default, rename_all, skip_serializing_if, Box, toml::Table flattened, and HashMap fields whose iteration order is the environment's choice) driven through the same seams, faults and oracles.",
             real: &["toml_edit::de::* (ValueDeserializer, TableDeserializer/TableMapAccess, ArrayDeserializer, KeyDeserializer, TableEnumDeserializer, SpannedDeserializer, DatetimeDeserializer), toml_edit::de::Error / TomlError (span, keys, raw, Display)", "toml::de wrappers, impl Deserializer for toml::Value / toml::Table, toml::de::Error", "toml_edit parser (document + spans used as expected locations via Item::span()/Key::span())", "serde's primitive impls, toml_datetime / toml::Value Deserialize"],
@@ -138,7 +138,7 @@ fn plan(prop: &str) -> Plan {
             level: "exploration",
             runs_quick: 400_000,
             runs_thorough: 20_000_000,
-            builds_quick: &["default", "preserve_order"],
+            builds_quick: &["default", "preserve_order", "perf"],
             builds_thorough: ALL_BUILDS,
             rule: "One evaluation = one seeded scenario (type description + value, workload A; or a map-heavy value / toml::Table with 1-4 adversarial re-orderings of every map's entries, workload C: shuffled, reversed, tables first, arrays of tables first, interleaved). Each of the five text serializers is run twice on freshly rebuilt structures (and on a newly spawned thread in 1/8 of the runs) and compared byte for byte; the text is read back by the reader peer and re-serialized (fixed point); plain and pretty outputs are decoded and compared; every re-ordering is serialized and must give valid text decoding to the model tree; toml::Table values are built by insertion in every order, printed twice, parsed and printed again. The whole batch is additionally executed a second time in other processes, in reverse order, with a different worker count and an address-perturbing allocator, and the per-run digests (all texts and errors) compared. Non-trivial = type has >= 3 nodes; distinct = distinct conversation shape (seam event sequence with payloads erased), counted with a hash set. In 1/8 of the evaluations the peers are REAL derived types (workload R, sim/src/realfam.rs: seven families using flatten, untagged, internally and adjacently tagged enums, default, rename_all, skip_serializing_if, Box, toml::Table flattened, and HashMap fields whose iteration order is the environment's choice) driven through the same seams, faults and oracles.",
             real: &["the five text serializers", "toml::Table / toml::Value Serialize, Display, FromStr", "toml::de read-back", "toml_edit parser/encoder, toml::fmt::DocumentFormatter, toml_edit::ser::pretty"],
